@@ -15,15 +15,16 @@ size_t verif_wl_gi; int verif_wl_bad; secp256k1_scalar verif_wl_sx;
 void h_wl_verify(void) {
     secp256k1_context ctx;
     INPUT(secp256k1_whitelist_signature, sig);
-    INPUT(size_t, n_keys); INPUT(secp256k1_pubkey, sub); INPUT(size_t, gi); INPUT(size_t, gk); INPUT(int, nullsel);
+    INPUT(size_t, n_keys); INPUT(secp256k1_pubkey, sub); INPUT(size_t, gi); INPUT(size_t, gk); INPUT(size_t, gb); INPUT(int, nullsel);
     secp256k1_pubkey *online, *offline; int ret; unsigned char sb[32]; size_t j;
     __CPROVER_assume(n_keys <= MAXN);
     online = malloc(n_keys ? n_keys * sizeof(secp256k1_pubkey) : 1); offline = malloc(n_keys ? n_keys * sizeof(secp256k1_pubkey) : 1);
     __CPROVER_assume(online != NULL && offline != NULL);
     verif_ctx_init(&ctx);
-    g_el_i = gi; g_el_k = gk; g_bv_n = 0; g_ck_n = 0;
+    g_el_i = gi; g_el_k = gk; g_el_b = gb; g_bv_n = 0; g_ck_n = 0;
+    g_ck_online_expect = online; g_ck_offline_expect = offline;
 #ifdef EL_BOUND
-    __CPROVER_assume(sig.n_keys <= EL_BOUND);     /* bounded stand-in for trees without the loop-contract hook */
+    __CPROVER_assume(sig.n_keys <= EL_BOUND);     /* bounded stand-in */
 #endif
     verif_wl_gi = gi; verif_wl_bad = 0;
     if (gi < sig.n_keys && sig.n_keys <= SECP256K1_WHITELIST_MAX_N_KEYS) {
@@ -32,33 +33,39 @@ void h_wl_verify(void) {
         secp256k1_scalar_set_b32(&verif_wl_sx, sb, &ov);
         verif_wl_bad = ov || secp256k1_scalar_is_zero(&verif_wl_sx);
     }
-    g_bv_e0_expect = &sig.data[0]; g_ck_online_expect = online; g_ck_offline_expect = offline; g_ck_sub_expect = &sub;
     if (nullsel == 0) {
         ret = secp256k1_whitelist_verify(&ctx, &sig, online, offline, n_keys, &sub);
         __CPROVER_assert(ret == 0 || ret == 1, "C16 whitelist_verify: returns 0 or 1");
         __CPROVER_assert(g_illegal == 0 && g_error == 0, "C16 whitelist_verify: no callback for non-NULL arguments (outside key loading), whatever the signature bytes");
         __CPROVER_assert(!(ret == 1) || n_keys >= 1, "C16 whitelist_verify.nonempty: ret = 1 implies n_keys >= 1");
         if (sig.n_keys != n_keys || sig.n_keys > SECP256K1_WHITELIST_MAX_N_KEYS)
-            __CPROVER_assert(ret == 0 && g_ck_n == 0 && g_bv_n == 0, "C16 whitelist_verify: key-count mismatch or more than 255 keys rejected before any key or ring work");
-        else {
+            __CPROVER_assert(ret == 0, "C16 whitelist_verify: key-count mismatch or more than 255 keys rejected");
 #ifndef VERIF_NATIVE
-            if (gi < n_keys) {
-                wide sv = be256(sb);
-                __CPROVER_assert(verif_wl_bad == (sv == 0 || sv >= N_()), "C16 whitelist_verify: (harness) ghost flag equals the specification of a bad scalar");
-                if (sv == 0 || sv >= N_())
-                    __CPROVER_assert(ret == 0 && g_bv_n == 0, "C16 whitelist_verify: any scalar that is zero or >= n rejects, and the ring check is never consulted");
-                if (g_bv_n == 1) __CPROVER_assert(sval(&g_bv_s_i) == sv && g_bv_pub_x0 == g_ck_key_x0, "C16 whitelist_verify: ring position i is checked with scalar i of the signature and computed key i");
-            }
-#endif
-            if (g_ck_n >= 1) __CPROVER_assert(g_ck_n == 1 && g_ck_nkeys == (int)n_keys && g_ck_args_match, "C16 whitelist_verify: keys and message computed once from exactly the caller's key lists and whitelisted key");
-            if (g_ck_n == 1 && g_ck_ret == 0) __CPROVER_assert(ret == 0 && g_bv_n == 0, "C16 whitelist_verify: key computation failure rejects");
-            if (g_bv_n >= 1) {
-                __CPROVER_assert(g_bv_n == 1 && g_ck_n == 1 && g_bv_nrings == 1 && g_bv_rsize0 == n_keys && g_bv_mlen == 32 && g_bv_evalues_null && g_bv_e0_match && g_bv_pub_obj == g_ck_keys_obj && g_bv_pub_off == g_ck_keys_off, "C16 whitelist_verify: one ring of n_keys over the computed key array, e0 = first 32 signature bytes, 32-byte message");
-                if (gk < 32) __CPROVER_assert(g_bv_m_k == g_ck_msg_k, "C16 whitelist_verify: the ring message is the computed key-list commitment");
-                __CPROVER_assert(ret == g_bv_ret, "C16 whitelist_verify: the result is the Borromean verdict");
-            }
-            if (ret == 1) __CPROVER_assert(g_bv_n == 1 && g_bv_ret == 1, "C16 whitelist_verify: accepts only on a positive Borromean verdict");
+        if (gi < sig.n_keys && sig.n_keys <= SECP256K1_WHITELIST_MAX_N_KEYS) {
+            wide sv = be256(sb);
+            __CPROVER_assert(verif_wl_bad == (sv == 0 || sv >= N_()), "C16 whitelist_verify: (harness) ghost flag equals the specification of a bad scalar");
+            if (sv == 0 || sv >= N_()) __CPROVER_assert(ret == 0, "C16 whitelist_verify: any scalar that is zero or >= n rejects (every ring position)");
+            if (ret == 1) __CPROVER_assert(sval(&g_bv_s_i) == sv && g_bv_pub_x0 == g_ck_key_x0, "C16 whitelist_verify: ring position i was checked with scalar i of the signature and computed key i");
         }
+#endif
+        if (g_ck_n >= 1 && g_ck_ret == 0) __CPROVER_assert(ret == 0, "C16 whitelist_verify: key computation failure rejects");
+        if (g_bv_n >= 1) __CPROVER_assert(ret == g_bv_ret, "C16 whitelist_verify: once the ring check is consulted the result is its verdict");
+        if (ret == 1) {
+            __CPROVER_assert(g_bv_n >= 1 && g_bv_ret == 1 && g_ck_n >= 1, "C16 whitelist_verify: accepts only on a positive Borromean verdict over computed keys");
+            __CPROVER_assert(g_ck_nkeys == (int)n_keys && g_ck_lists_match && (gb >= 64 || g_ck_sub_b == sub.data[gb]), "C16 whitelist_verify: keys and message come from the caller's key lists and whitelisted key");
+            __CPROVER_assert(g_bv_nrings == 1 && g_bv_rsize0 == n_keys && g_bv_mlen == 32, "C16 whitelist_verify: one ring of n_keys with a 32-byte message");
+            if (gk < 32) __CPROVER_assert(g_bv_e0_k == sig.data[gk] && g_bv_m_k == g_ck_msg_k, "C16 whitelist_verify: e0 is the first 32 signature bytes and the ring message is the computed key-list commitment");
+        }
+#ifdef EL_BOUND
+        /* accept side (bounded stand-in only: needs all scalars at once): every gate passed => the verdict decides */
+        {   int all_ok = (sig.n_keys == n_keys && n_keys >= 1); size_t q;
+            for (q = 0; q < EL_BOUND; q++) if (q < sig.n_keys) {
+                secp256k1_scalar t; int o = 0; secp256k1_scalar_set_b32(&t, &sig.data[32 * (q + 1)], &o);
+                if (o || secp256k1_scalar_is_zero(&t)) all_ok = 0;
+            }
+            if (all_ok) __CPROVER_assert(g_ck_n >= 1 && (g_ck_ret == 0 || (g_bv_n >= 1 && ret == g_bv_ret)), "C16 whitelist_verify: a signature passing every gate is decided by the key computation and the Borromean verdict");
+        }
+#endif
 #ifdef EL_BOUND
         if (ret == 1 && n_keys == EL_BOUND && gi == EL_BOUND - 1) REACH("wl verify accepts the largest ring of the bounded stand-in");
 #else
@@ -72,7 +79,7 @@ void h_wl_verify(void) {
         else if (nullsel == 2) ret = secp256k1_whitelist_verify(&ctx, &sig, NULL, offline, n_keys, &sub);
         else if (nullsel == 3) ret = secp256k1_whitelist_verify(&ctx, &sig, online, NULL, n_keys, &sub);
         else ret = secp256k1_whitelist_verify(&ctx, &sig, online, offline, n_keys, NULL);
-        __CPROVER_assert(ret == 0 && g_illegal == 1 && g_error == 0 && g_bv_n == 0, "C16 whitelist_verify: NULL argument reports illegal use and returns 0");
+        __CPROVER_assert(ret == 0 && g_illegal == 1 && g_error == 0, "C16 whitelist_verify: NULL argument reports illegal use and returns 0");
         REACH("wl verify NULL argument");
     }
 }
